@@ -57,7 +57,7 @@ def gen(rng, tier):
     # values whose lines are long: a first line or a continuation line (indentation included) of a length around the sizes
     # stack buffers like (BUFSIZ = 8192 and its neighbours), on every delimiter and comment character; a key behind it
     Ls = [4094, 4095, 4096, 4097, 8189, 8190, 8191, 8192, 8193, 8200, 16383, 16384, 16385, 20000, 65536, 70001]
-    for i in range(2 * 3 * len(Ls) if tier == "quick" else 480):
+    for i in range(2 * 3 * len(Ls) if tier == "quick" else 192):
         d = (61, 58, 32)[(i // 7) % 3]; c = (35, 59)[(i // 5) % 2]
         L = Ls[(i // 3) % len(Ls)] if i < 6 * len(Ls) or rng.random() < 0.5 else rng.randrange(100, 40000)
         ind = rng.choice([b" ", b"\t", b"    "])
